@@ -780,12 +780,13 @@ func main() {
 		Level: "exploration",
 		Rule: "every n x n integer matrix of the stated lattices x every routine (matrixInverse, gaussJordan solve, determinant, backSubstitution) x every option set whose precondition the matrix satisfies exactly " +
 			"(PositiveDefinite only on exactly-SPD, UpperTriangular/backSubstitution only on upper-triangular input; Submatrix over all 2^n masks; caller-supplied InSitu buffers pre-filled with finite garbage; LogScale) x element type x right-hand side; " +
+			"plus two-call histories sharing one in-situ object (hist.go): every routine with work buffers x ordered pairs of option sets x first inputs of a lattice containing singular, not-SPD, non-triangular and non-finite matrices x regular admissible second inputs, the second call must equal the same call with fresh buffers (non-trivial when the first call failed or its input was inadmissible); " +
 			"a case is non-trivial when the selected block is exactly regular (defining equation checked against tol*kappa from the exact inverse) or structurally singular (must fail loudly or return non-finite values); exactly singular but not structurally singular blocks are executed but not judged",
 		Assume: []string{
 			"gaussJordan.Run is called with x = identity (its use as inverse/solve); UpperTriangular is only promised for x0 = I",
 			"Submatrix selects the principal block A[S,S]; entries of x and b outside the block must stay untouched (as asserted by the repository's own TestSubmatrixInverse)",
 			"tolerance 1024*u*kappa_inf(A)*max(1,|b|_inf), u = 2^-24 for Float32/Real32 and 2^-53 otherwise",
-			"in-situ garbage is finite (no NaN/Inf placed in caller buffers)",
+			"in-situ garbage placed by the harness is finite (no NaN/Inf placed in caller buffers); whatever the library itself leaves in the buffers after an earlier (also failed) call is a legitimate buffer state",
 		},
 		Run: func(c *vf.Ctx) {
 			a5 := []int64{0, 1, -1, 2, -2}
@@ -807,8 +808,23 @@ func main() {
 				fams = []family{latticeFamily(1, a5, always), latticeFamily(2, a5, always), latticeFamily(3, a4, small(1))}
 			}
 			explore(c, fams)
+			exploreHistories(c)
 		},
 		Replay: func(c *vf.Ctx, raw json.RawMessage) {
+			var kind struct {
+				Kind string `json:"kind"`
+			}
+			if err := json.Unmarshal(raw, &kind); err == nil && kind.Kind == "history" {
+				var h HCase
+				if err := json.Unmarshal(raw, &h); err != nil {
+					c.HarnessError(err.Error())
+					return
+				}
+				if v := runHist(h); v.key != "" {
+					c.Violate(v.key, v.what, 0, h)
+				}
+				return
+			}
 			var cs Case
 			if err := json.Unmarshal(raw, &cs); err != nil {
 				c.HarnessError(err.Error())
